@@ -25,6 +25,18 @@ class Spec:
             "non-trivial = crash point strictly inside a request")
 
 
+def view_eq(g, c):
+    """equality of two dump lines as protocol-visible state: a client that exists but has no version
+    and no snapshot is the same state as an absent one (the add-version handler creates the client in
+    a transaction of its own)"""
+    if same_line("dump x", g, c, tol=10**12):
+        return True
+    dg, dc = Dump(g), Dump(c)
+    def empty(d):
+        return d.ok and (d.absent or (d.latest == 0 and d.snap is None and not d.versions()))
+    return empty(dg) and empty(dc)
+
+
 def unx(s):
     """decode a strace -xx string literal body"""
     return bytes(int(x, 16) for x in re.findall(r"\\x([0-9a-f]{2})", s))
@@ -32,12 +44,13 @@ def unx(s):
 
 def parse_strace(path, datadir):
     """-> list of events: ('write', file, off, bytes) ('trunc', file, len) ('sync', file) ('unlink', file) ('ack', n)"""
-    fds, pos, ev = {}, {}, []
+    allfds, allpos, ev = {}, {}, []
     for line in open(path, errors="replace"):
-        m = re.match(r"^\d+\s+(\w+)\((.*)\)\s+=\s+(-?\d+)", line)
+        m = re.match(r"^(\d+)\s+(\w+)\((.*)\)\s+=\s+(-?\d+)", line)
         if not m:
             continue
-        call, args, ret = m.group(1), m.group(2), int(m.group(3))
+        pid, call, args, ret = m.group(1), m.group(2), m.group(3), int(m.group(4))
+        fds, pos = allfds.setdefault(pid, {}), allpos.setdefault(pid, {})
         if call == "openat" and ret >= 0:
             pm = re.search(r'"((?:\\x[0-9a-f]{2})*)"', args)
             p = unx(pm.group(1)).decode(errors="replace") if pm else ""
@@ -178,6 +191,21 @@ def gen_history(rng, tier):
     return ["ensure 1"] + reqs
 
 
+def gen_http_history(rng, tier):
+    """requests through the real executable (handler paths differ from the library: body assembly,
+    client auto-creation, whatever the handler does around the library call)"""
+    n = rng.randint(3, 6) if tier != "thorough" else rng.randint(8, 16)
+    reqs = []
+    for i in range(n):
+        size = rng.choice([1, 100, 5000, 70000, 200000])
+        body = f"r:{size}" if size > 12 else "b:7"
+        if i == 0 or rng.random() < 0.6:
+            reqs.append(f"http@0 POST av hyph=latest:1 hyph=1 history {body}")
+        else:
+            reqs.append(f"http@0 POST as hyph=latest:1 hyph=1 snapshot {body}")
+    return reqs
+
+
 def run_c04(tier, seed, replay=None):
     t0 = time.time()
     spec = Spec()
@@ -190,14 +218,19 @@ def run_c04(tier, seed, replay=None):
     problems = []
     rng = random.Random(seed)
     nh = 3 if tier != "thorough" else 12
+    nhttp = 1 if tier != "thorough" else 4
+    okb, sbin, blog = build.build_server_bin()
+    if not okb:
+        raise RuntimeError("server binary build failed: " + blog[-1500:])
     work = tempfile.mkdtemp(prefix="c04-", dir=CACHE)
     kinds = {"proc": 0, "power": 0}
     try:
-        for hi in range(nh):
+        for hi in range(nh + nhttp):
             hd = os.path.join(work, f"h{hi}")
             os.makedirs(os.path.join(hd, "data"))
-            reqs = gen_history(rng, tier)
-            sym = [f"case h{hi}"]
+            via_http = hi >= nh
+            reqs = gen_http_history(rng, tier) if via_http else gen_history(rng, tier)
+            sym = [f"case h{hi}"] + (["boot listen=flag:1 dir=flag allow=none versions=default days=default"] if via_http else [])
             for j, r in enumerate(reqs):
                 sym += [r, f"ack {j + 1}"]
             sym += [f"savestate {hd}/ids.txt", "end"]
@@ -205,12 +238,13 @@ def run_c04(tier, seed, replay=None):
             datadir = os.path.join(hd, "data")
             p = subprocess.run(["strace", "-f", "-xx", "-s", "400000000", "-e",
                                 "trace=openat,close,pwrite64,write,fsync,fdatasync,ftruncate,unlink,unlinkat",
-                                "-o", os.path.join(hd, "strace.log"), binp, "lib", "sqlite"],
-                               input=text, capture_output=True, text=True, env=dict(ENV, TSS_KEEP_DIR=datadir, VERIF_SEED=str(seed + hi)), timeout=1200)
+                                "-o", os.path.join(hd, "strace.log"), binp] + (["bin"] if via_http else ["lib", "sqlite"]),
+                               input=text, capture_output=True, text=True,
+                               env=dict(ENV, TSS_KEEP_DIR=datadir, VERIF_SEED=str(seed + hi), TSS_SERVER_BIN=sbin), timeout=1200)
             if p.returncode != 0:
                 raise RuntimeError("traced run failed: " + p.stderr[-500:])
             trace_ops = [l[3:] for l in p.stdout.split("\n") if l.startswith("OP ")]
-            req_ops = [o for o in trace_ops if o.split()[0] in ("ensure", "av", "as")]
+            req_ops = [o for o in trace_ops if o.split()[0] in ("ensure", "av", "as", "http")]
             ev = parse_strace(os.path.join(hd, "strace.log"), datadir)
             nreq = len(reqs)
             # ---- materialise images
@@ -299,11 +333,11 @@ def run_c04(tier, seed, replay=None):
                     ok_states = []
                     for j in range(im["acked"], min(im["acked"] + 2, len(allowed))):
                         cand = allowed[j]
-                        if len(cand) == len(got) and all(same_line("dump x", g, c, tol=10**12) for g, c in zip(got, cand)):
+                        if len(cand) == len(got) and all(view_eq(g, c) for g, c in zip(got, cand)):
                             ok_states.append(j)
                     if got and not ok_states:
                         # is it at least SOME request boundary (then acknowledged data was lost), or none (half-applied)?
-                        other = [j for j in range(len(allowed)) if len(allowed[j]) == len(got) and all(same_line("dump x", g, c, tol=10**12) for g, c in zip(got, allowed[j]))]
+                        other = [j for j in range(len(allowed)) if len(allowed[j]) == len(got) and all(view_eq(g, c) for g, c in zip(got, allowed[j]))]
                         if other:
                             msgs.append(f"recovered state is the state after {other[0]} requests but {im['acked']} had been acknowledged: {where}")
                         else:
